@@ -89,11 +89,114 @@ def _variance(E, f, ddir_width):
     return (E * df[None, None, :, None]).sum(axis=(2, 3)) * ddir_width
 
 
+def _mk(c, names, extra=None):
+    from engine.pyse import arrays as A, xrs as X
+
+    sizes = {k: c.int("N" + k, 1) for k in names}
+    ar = lambda n: A.Arr((n,), lambda idx: idx[0], "i")
+    return sizes, ar
+
+
+def _sym_ncswan(c, wind):
+    """all sizes/values: density / R2D bin by bin, direction radians -> degrees mod 360, winds from
+    components (speed proved; direction in [0, 360))"""
+    from engine.pyse import arrays as A, xrs as X
+
+    m = c.m
+    nt, ns, nf, nd = c.int("NT", 1), c.int("NS", 1), c.int("NF", 1), c.int("ND", 1)
+    E = c.array("E", (nt, ns, nf, nd), nonneg=True)
+    f = c.array("f", (nf,), sorted_inc=True, positive=True)
+    d = c.array("drad", (nd,))
+    coord = lambda arr, name: X.DA(arr, dims=(name,), name=name)
+    ar = lambda n: A.Arr((n,), lambda idx: idx[0], "i")
+    coords = {"time": coord(ar(nt), "time"), "frequency": coord(f, "frequency"), "direction": coord(d, "direction")}
+    tp = {"time": coords["time"]}
+    dv = {"density": X.DA(E, dims=("time", "points", "frequency", "direction"), coords=coords, name="density"),
+          "longitude": X.DA(c.array("lon", (ns,)), dims=("points",), name="longitude"),
+          "latitude": X.DA(c.array("lat", (ns,)), dims=("points",), name="latitude"),
+          "depth": X.DA(c.array("dep", (nt, ns)), dims=("time", "points"), coords=tp, name="depth")}
+    if wind:
+        u, v = c.array("u", (nt, ns)), c.array("v", (nt, ns))
+        dv["xwnd"] = X.DA(u, dims=("time", "points"), coords=tp, name="xwnd")
+        dv["ywnd"] = X.DA(v, dims=("time", "points"), coords=tp, name="ywnd")
+    ds = X.DS(dv, coords=coords)
+    out = c.call(ds)
+    e = out["efth"]
+    c.ensure_true("wavespectra_names", set(e.dims) == {"time", "site", "freq", "dir"} and "xwnd" not in out and "dpt" in out, f"{e.dims}")
+    it, isx, i, j = c.index("it", nt), c.index("is", ns), c.index("i", nf), c.index("j", nd)
+    c.ensure_eq("density_per_degree", e.at({"time": it, "site": isx, "freq": i, "dir": j}), E.get((it, isx, i, j)) * m.pi / 180)
+    c.ensure_eq("directions_radians_to_degrees_in_0_360", out.coords["dir"].at({"dir": j}), m.mod(d.get((j,)) * (180 / m.pi), 360))
+    if wind:
+        c.ensure_eq("wind_speed", out["wspd"].at({"time": it, "site": isx}),
+                    m.sqrt(u.get((it, isx)) ** 2 + v.get((it, isx)) ** 2))
+        wd = out["wdir"].at({"time": it, "site": isx})
+        c.ensure("wind_direction_in_0_360", m.and_(wd >= 0, wd < 360))
+
+
+def _sym_wwm(c):
+    """all sizes/values: efth = AC * sigma * 2 pi / R2D, freq = sigma / 2 pi, dir = SPDIR * R2D"""
+    from engine.pyse import arrays as A, xrs as X
+
+    m = c.m
+    nt, ns, nf, nd = c.int("NT", 1), c.int("NS", 1), c.int("NF", 1), c.int("ND", 1)
+    AC = c.array("AC", (nt, ns, nf, nd), nonneg=True)
+    sig = c.array("sig", (nf,), sorted_inc=True, positive=True)
+    spd = c.array("spdir", (nd,))
+    ar = lambda n: A.Arr((n,), lambda idx: idx[0], "i")
+    tcoord = {"ocean_time": X.DA(ar(nt), dims=("ocean_time",), name="ocean_time")}
+    ds = X.DS({"AC": X.DA(AC, dims=("ocean_time", "nbstation", "nfreq", "ndir"), coords=tcoord, name="AC"),
+               "SPSIG": X.DA(sig, dims=("nfreq",), name="SPSIG"), "SPDIR": X.DA(spd, dims=("ndir",), name="SPDIR"),
+               "lon": X.DA(c.array("lon", (ns,)), dims=("nbstation",), name="lon"), "lat": X.DA(c.array("lat", (ns,)), dims=("nbstation",), name="lat"),
+               "DEP": X.DA(c.array("dep", (nt, ns)), dims=("ocean_time", "nbstation"), coords=tcoord, name="DEP")}, coords=tcoord)
+    out = c.call(ds)
+    e = out["efth"]
+    it, isx, i, j = c.index("it", nt), c.index("is", ns), c.index("i", nf), c.index("j", nd)
+    c.ensure_true("dimension_order", tuple(e.dims) == ("time", "site", "freq", "dir"), f"{e.dims}")
+    c.ensure_eq("action_to_energy_density_per_hertz_per_degree", e.at({"time": it, "site": isx, "freq": i, "dir": j}),
+                AC.get((it, isx, i, j)) * sig.get((i,)) * (2 * m.pi) / (180 / m.pi))
+    c.ensure_eq("frequency_is_sigma_over_two_pi", out.coords["freq"].at({"freq": i}), sig.get((i,)) / (2 * m.pi))
+    c.ensure_eq("directions_radians_to_degrees", out.coords["dir"].at({"dir": j}), spd.get((j,)) * (180 / m.pi))
+
+
+def _sym_ww3(c, lonlat_time):
+    """all sizes, all values: density per degree = native density x pi/180 bin by bin, every bin keeps its
+    physical direction ((d + 180) mod 360), coordinates/dimensions renamed, caller's arrays not written"""
+    from engine.pyse import arrays as A, xrs as X
+    from engine.pyse.core import Sym
+
+    m = c.m
+    nt, ns, nf, nd = c.int("NT", 1), c.int("NS", 1), c.int("NF", 1), c.int("ND", 1)
+    E = c.array("E", (nt, ns, nf, nd), nonneg=True)
+    f = c.array("f", (nf,), sorted_inc=True, positive=True)
+    d = c.array("dnat", (nd,))
+    coord = lambda arr, name: X.DA(arr, dims=(name,), name=name)
+    ar = lambda n: A.Arr((n,), lambda idx: idx[0], "i")
+    coords = {"time": coord(ar(nt), "time"), "station": coord(ar(ns), "station"), "frequency": coord(f, "frequency"), "direction": coord(d, "direction")}
+    ll = ("time", "station") if lonlat_time else ("station",)
+    lon = c.array("lon", tuple({"time": nt, "station": ns}[k] for k in ll))
+    lat = c.array("lat", tuple({"time": nt, "station": ns}[k] for k in ll))
+    ds = X.DS({"efth": X.DA(E, dims=("time", "station", "frequency", "direction"), coords=coords, name="efth"),
+               "longitude": X.DA(lon, dims=ll, coords={k: coords[k] for k in ll}, name="longitude"),
+               "latitude": X.DA(lat, dims=ll, coords={k: coords[k] for k in ll}, name="latitude"),
+               "wnd": X.DA(c.array("wnd", (nt, ns)), dims=("time", "station"), coords={k: coords[k] for k in ("time", "station")}, name="wnd"),
+               "extra": X.DA(c.array("extra", (nt,)), dims=("time",), coords={"time": coords["time"]}, name="extra")}, coords=coords)
+    out = c.call(ds)
+    e = out["efth"]
+    c.ensure_true("wavespectra_names", set(e.dims) == {"time", "site", "freq", "dir"} and "extra" not in out and "wspd" in out,
+                  f"dims {e.dims}")
+    it, isx, i, j = c.index("it", nt), c.index("is", ns), c.index("i", nf), c.index("j", nd)
+    idx = {"time": it, "site": isx, "freq": i, "dir": j}
+    c.ensure_eq("density_per_degree", e.at(idx), E.get((it, isx, i, j)) * m.pi / 180)
+    c.ensure_eq("directions_turned_by_180_into_0_360", out.coords["dir"].at({"dir": j}), m.mod(d.get((j,)) + 180, 360))
+    c.ensure_eq("frequencies_kept", out.coords["freq"].at({"freq": i}), f.get((i,)))
+    c.ensure_true("lonlat_not_function_of_time", "time" not in out["lon"].dims and "time" not in out["lat"].dims, str(out["lon"].dims))
+    c.ensure_eq("longitude_of_the_site", out["lon"].at({"site": isx}), lon.get((Sym(0), isx) if lonlat_time else (isx,)))
+
+
 @contract(IN + "ww3:from_ww3", props=["C12", "C17"], scenarios=[{"lonlat_time": False}, {"lonlat_time": True}], replays=6)
 def v_from_ww3(c, lonlat_time):
     if c.m.symbolic:
-        c.ensure_true("placeholder_structural", True)
-        return
+        return _sym_ww3(c, lonlat_time)
     import numpy as np
     import xarray as xr
 
@@ -123,8 +226,7 @@ def v_from_ww3(c, lonlat_time):
 @contract(IN + "ncswan:from_ncswan", props=["C12", "C17"], scenarios=[{"wind": True}, {"wind": False}], replays=6)
 def v_from_ncswan(c, wind):
     if c.m.symbolic:
-        c.ensure_true("placeholder_structural", True)
-        return
+        return _sym_ncswan(c, wind)
     import numpy as np
     import xarray as xr
 
@@ -154,8 +256,7 @@ def v_from_ncswan(c, wind):
 @contract(IN + "wwm:from_wwm", props=["C12", "C17"], scenarios=[{}], replays=6)
 def v_from_wwm(c):
     if c.m.symbolic:
-        c.ensure_true("placeholder_structural", True)
-        return
+        return _sym_wwm(c)
     import numpy as np
     import xarray as xr
 
@@ -182,7 +283,22 @@ def v_from_wwm(c):
 @contract(IN + "era5:from_era5", props=["C12", "C17"], scenarios=[{}], replays=6)
 def v_from_era5(c):
     if c.m.symbolic:
-        c.ensure_true("placeholder_structural", True)
+        from engine.pyse import arrays as A, xrs as X
+        from engine.pyse.core import Sym
+
+        m = c.m
+        nt, ny, nx = c.int("NT", 1), c.int("NY", 1), c.int("NX", 1)
+        D = c.array("d2fd", (nt, Sym(30), Sym(24), ny, nx), nan=True)
+        ar = lambda n: A.Arr((n,), lambda idx: idx[0], "i")
+        coords = {k: X.DA(ar(n), dims=(k,), name=k) for k, n in (("time", nt), ("freq", Sym(30)), ("dir", Sym(24)), ("lat", ny), ("lon", nx))}
+        ds = X.DS({"efth": X.DA(D, dims=("time", "freq", "dir", "lat", "lon"), coords=coords, name="efth")}, coords=coords)
+        out = c.call(ds)
+        it, i, j, iy, ix = c.index("it", nt), c.index("i", 30), c.index("j", 24), c.index("iy", ny), c.index("ix", nx)
+        src = D.get((it, i, j, iy, ix))
+        got = out["efth"].at({"time": it, "freq": i, "dir": j, "lat": iy, "lon": ix})
+        want = m.ite(m.isnan(src), 0.0, m.pow(10, Sym(src.t)) * m.pi / 180)
+        c.ensure_eq("ten_to_the_power_times_pi_over_180_missing_as_zero", got, want)
+        c.ensure_eq("default_directions_coming_from", out.coords["dir"].at({"dir": j}), m.mod(7.5 + 15 * m.real(j) + 180, 360))
         return
     import numpy as np
     import xarray as xr
